@@ -47,6 +47,8 @@ def _eq(a, b):
         return bool(a) == bool(b) if isinstance(a, (bool, int)) and isinstance(b, (bool, int)) else a == b
     num = (int, float, complex, np.number)
     if isinstance(a, num) and isinstance(b, num):
+        if a == b:
+            return True          # also +-infinity
         return abs(complex(a) - complex(b)) <= TOL * max(1.0, abs(complex(a)), abs(complex(b)))
     if isinstance(a, np.ndarray) or isinstance(b, np.ndarray):
         try:
@@ -125,8 +127,8 @@ BASE = dict(np=_np, math=_math, __eq__=_eq, at=_at, key_at=_key_at, pos_of=_pos_
 
 # --------------------------------------------------------------------------------------------- spec compilation
 class _Tx(ast.NodeTransformer):
-    def __init__(self, cls, argnames, defs):
-        self.cls, self.argnames, self.defs = cls, argnames, defs
+    def __init__(self, cls, argnames, defs, tolerant=True):
+        self.cls, self.argnames, self.defs, self.tolerant = cls, argnames, defs, tolerant
 
     def visit_Attribute(self, node):
         self.generic_visit(node)
@@ -137,7 +139,7 @@ class _Tx(ast.NodeTransformer):
 
     def visit_Compare(self, node):
         self.generic_visit(node)
-        if len(node.ops) == 1 and isinstance(node.ops[0], (ast.Eq, ast.NotEq)):
+        if self.tolerant and len(node.ops) == 1 and isinstance(node.ops[0], (ast.Eq, ast.NotEq)):
             call = ast.Call(ast.Name("__eq__", ast.Load()), [node.left, node.comparators[0]], [])
             return call if isinstance(node.ops[0], ast.Eq) else ast.UnaryOp(ast.Not(), call)
         return node
@@ -171,9 +173,11 @@ class _Tx(ast.NodeTransformer):
         return node
 
 
-def compile_spec(src, cls, argnames, defs):
+def compile_spec(src, cls, argnames, defs, tolerant=True):
+    """tolerant: numeric equalities in postconditions are compared to 1e-9 (results of float arithmetic); preconditions and `raises`
+    conditions are evaluated exactly (they decide what the code under test decides with exact comparisons)"""
     tree = ast.parse(src.strip(), mode="eval")
-    tree = _Tx(cls, argnames, defs).visit(tree)
+    tree = _Tx(cls, argnames, defs, tolerant).visit(tree)
     ast.fix_missing_locations(tree)
     return compile(tree, "<spec>", "eval")
 
@@ -479,10 +483,10 @@ def check_contract(c, limit=400, seed=0, max_fail=1):
         return dict(res, status="unavailable", reason=f"ghost inputs {extra}")
     spec_args = list(dict.fromkeys(argnames + ["result"]))
 
-    def comp(src):
-        return compile_spec(src, clsname, spec_args, c.defs or {})
+    def comp(src, tolerant=True):
+        return compile_spec(src, clsname, spec_args, c.defs or {}, tolerant)
     try:
-        requires = [comp(r) for r in c.requires]
+        requires = [comp(r, False) for r in c.requires]
     except (Skip, SyntaxError) as e:
         return dict(res, status="unavailable", reason=f"requires not evaluable natively: {e}")
     ensures, raises = {}, {}
@@ -501,7 +505,7 @@ def check_contract(c, limit=400, seed=0, max_fail=1):
             return dict(res, status="unavailable", reason=str(e))
         for en, src in c.raises.items():
             try:
-                raises[en] = comp(src)
+                raises[en] = comp(src, False)
             except (Skip, SyntaxError) as e:
                 res["skipped_clauses"].append(f"raises.{en} ({e})")
     try:
